@@ -127,6 +127,10 @@ func (e *engine) dispatch(worker int, raw []byte) error {
 	switch fam {
 	case "patch":
 		return e.checkPatchLine(worker, raw)
+	case "merge":
+		return e.checkMergeLine(worker, raw)
+	case "diff":
+		return e.checkDiffLine(worker, raw)
 	}
 	return fmt.Errorf("unknown family %q", fam)
 }
